@@ -99,6 +99,43 @@ def _opt_filter(ctx, a, c):
     return o if ctx.branch(r, "filter") else none()
 
 
+def _structural_eq(ctx, x, y):
+    x = deref(ctx, x) if isinstance(x, Ref) else x
+    y = deref(ctx, y) if isinstance(y, Ref) else y
+    if isinstance(x, Enum) and isinstance(y, Enum):
+        if x.idx != y.idx or len(x.f) != len(y.f):
+            return z3.BoolVal(False)
+        return z3.And(*[_structural_eq(ctx, p_, q_) for p_, q_ in zip(x.f, y.f)]) if x.f else z3.BoolVal(True)
+    if isinstance(x, Agg) and isinstance(y, Agg) and len(x.f) == len(y.f):
+        return z3.And(*[_structural_eq(ctx, p_, q_) for p_, q_ in zip(x.f, y.f)]) if x.f else z3.BoolVal(True)
+    if is_z3(x) and is_z3(y):
+        return x == y
+    raise Inconclusive(f"structural equality of {x!r} and {y!r}")
+
+
+@model("PartialEq::eq", doc="core: `#[derive(PartialEq)]` on one of the crate's own plain types (trait-level fallback when no hand-written impl is found): same variant and equal fields")
+def _derived_eq(ctx, a, c):
+    return z3.simplify(_structural_eq(ctx, a[0], a[1]))
+
+
+@model("PartialEq::ne", doc="core: negation of the derived equality")
+def _derived_ne(ctx, a, c):
+    return z3.simplify(z3.Not(_structural_eq(ctx, a[0], a[1])))
+
+
+@model("Option::map_or_else", doc="core: Some(x) => f(x), None => default()")
+def _opt_map_or_else(ctx, a, c):
+    o = need_opt(a[0])
+    return call_closure(ctx, a[2], [o.f[0]]) if is_some(o) else call_closure(ctx, a[1], [])
+
+
+@model("Option::then_some", "bool::then_some", doc="core: true => Some(v), false => None")
+def _then_some(ctx, a, c):
+    if ctx.branch(a[0], "then_some condition"):
+        return some(a[1])
+    return none()
+
+
 @model("Option::unwrap_or_default", doc="core: Some(x) => x, None => Default (false / 0)")
 def _opt_unwrap_or_default(ctx, a, c):
     o = need_opt(a[0])
@@ -493,7 +530,18 @@ def _eq_ignore_case(ctx, a, c):
        doc="core: calling a closure value with a tuple of arguments")
 def _fn_call(ctx, a, c):
     args = a[1].f if isinstance(a[1], Agg) else [a[1]]
-    return call_closure(ctx, a[0], args)
+    clo = a[0]
+    tgt = clo
+    hops = 0
+    while isinstance(tgt, Ref) and hops < 4:
+        tgt = ctx.load(tgt)
+        hops += 1
+    if tgt is None:
+        # a capture-less closure is a zero-sized value that MIR never assigns: its type is in the callee
+        m = re.match(r"<(?:&(?:mut )?)*(\{closure@[^}]*\}) as ", c.strip())
+        if m:
+            clo = Agg("closure:" + m.group(1), [])
+    return call_closure(ctx, clo, args)
 
 
 MAXLEN = 12
@@ -1218,6 +1266,100 @@ def _slice_into_iter(ctx, a, c):
     if isinstance(r, Ref):
         return IterV([Ref(r.cell, r.path + (("cindex", i, False),)) for i in range(len(arr.f))])
     return IterV([Ref(Cell(x, "elem")) for x in arr.f])
+
+
+def _iter_items(ctx, v):
+    it = v
+    hops = 0
+    while isinstance(it, Ref) and hops < 3:
+        it = ctx.load(it)
+        hops += 1
+    if not isinstance(it, IterV):
+        raise Inconclusive("iterator adapter on " + repr(it))
+    return it
+
+
+@model("Iterator::position", "<Iter as Iterator>::position", "<IterMut as Iterator>::position", doc="core: index of the first item for which the predicate holds (items are tested in order, each test may fork)")
+def _iter_position(ctx, a, c):
+    it = _iter_items(ctx, a[0])
+    i = 0
+    while it.pos < len(it.items):
+        x = it.items[it.pos]
+        it.pos += 1
+        if ctx.branch(call_closure(ctx, a[1], [x]), "position predicate"):
+            return some(z3.BitVecVal(i, 64))
+        i += 1
+    return none()
+
+
+@model("Iterator::for_each", "<Iter as Iterator>::for_each", "<IterMut as Iterator>::for_each", "<IntoIter as Iterator>::for_each", doc="core: calls the closure on every remaining item, in order")
+def _iter_for_each(ctx, a, c):
+    it = _iter_items(ctx, a[0])
+    while it.pos < len(it.items):
+        x = it.items[it.pos]
+        it.pos += 1
+        call_closure(ctx, a[1], [x])
+    return UNIT
+
+
+@model("Iterator::any", "<Iter as Iterator>::any", doc="core: short-circuiting existential")
+def _iter_any(ctx, a, c):
+    it = _iter_items(ctx, a[0])
+    while it.pos < len(it.items):
+        x = it.items[it.pos]
+        it.pos += 1
+        if ctx.branch(call_closure(ctx, a[1], [x]), "any predicate"):
+            return z3.BoolVal(True)
+    return z3.BoolVal(False)
+
+
+@model("Iterator::all", "<Iter as Iterator>::all", doc="core: short-circuiting universal")
+def _iter_all(ctx, a, c):
+    it = _iter_items(ctx, a[0])
+    while it.pos < len(it.items):
+        x = it.items[it.pos]
+        it.pos += 1
+        if not ctx.branch(call_closure(ctx, a[1], [x]), "all predicate"):
+            return z3.BoolVal(False)
+    return z3.BoolVal(True)
+
+
+@model("Iterator::find", "<Iter as Iterator>::find", doc="core: first item for which the predicate holds")
+def _iter_find(ctx, a, c):
+    it = _iter_items(ctx, a[0])
+    while it.pos < len(it.items):
+        x = it.items[it.pos]
+        it.pos += 1
+        if ctx.branch(call_closure(ctx, a[1], [Ref(Cell(x, "find-arg"))]), "find predicate"):
+            return some(x)
+    return none()
+
+
+@model("VecDeque::drain", doc="alloc: removes the given range (here: a prefix `..n` or everything) and yields the removed elements in order")
+def _dq_drain(ctx, a, c):
+    d = dq_of(ctx, a[0])
+    r = a[1]
+    n = None
+    if isinstance(r, Agg) and r.kind.endswith("RangeTo") and len(r.f) == 1:
+        n = r.f[0]
+    elif isinstance(r, Agg) and r.kind.endswith("RangeFull"):
+        n = z3.BitVecVal(len(d.cells), 64)
+    if n is None:
+        raise Inconclusive("VecDeque::drain range " + repr(r))
+    n = z3.simplify(n)
+    if not z3.is_bv_value(n):
+        # symbolic prefix length: decide it against every possible length
+        for k in range(len(d.cells) + 1):
+            if ctx.branch(n == k, f"drain length {k}"):
+                n = z3.BitVecVal(k, 64)
+                break
+        else:
+            raise Panic("VecDeque::drain: range end out of bounds")
+    k = n.as_long()
+    if k > len(d.cells):
+        raise Panic("VecDeque::drain: range end out of bounds")
+    taken, d.cells = d.cells[:k], d.cells[k:]
+    return IterV([c_.v for c_ in taken])
 
 
 @model("<Iter as Iterator>::next", "<IntoIter as Iterator>::next", doc="core: next element or None")
